@@ -388,6 +388,38 @@ func envStdStruct() interface{} {
 	}
 }
 
+// "map2" / "struct2": the SAME names and types as map / struct, OTHER contents: a Callable
+// compiled against one is accepted by the other, and its result must follow the contents.
+func envStdStruct2() interface{} {
+	return &EnvStruct{
+		N: 7, X: 1.25, S: "other", B: false,
+		L: []int{9, 8, 9, 7, 1}, Ls: []string{"q", "q", "r"},
+		M:  map[string]int{"k1": 10, "k2": 20, "k9": 90},
+		Mi: map[int]string{2: "zwei", 5: "fuenf"},
+		O:  Inner{70, "seventy", []string{"u", "v", "w"}},
+		P:  &WithMaybe{A: 9.5, B: nil, C: strp("cc")},
+		T:  time.Unix(1700000000, 0),
+		Ll: [][]int{{5}, {6, 7}, {8}},
+		Lo: []Inner{{3, "c", []string{"x"}}, {4, "d", []string{}}, {5, "e", []string{"y", "z"}}},
+		Mo: map[string]Inner{"u": {11, "aa", []string{"q1"}}, "w": {12, "bb", []string{}}},
+	}
+}
+
+func envStdMap2() interface{} {
+	e := envStdStruct2().(*EnvStruct)
+	return map[string]interface{}{
+		"n": e.N, "x": e.X, "s": e.S, "b": e.B, "l": e.L, "ls": e.Ls, "m": e.M, "mi": e.Mi,
+		"o": e.O, "p": e.P, "t": e.T, "ll": e.Ll, "lo": e.Lo, "mo": e.Mo,
+	}
+}
+
+// sameTyped lists, per environment, the environments that bind the same names to the same types.
+var sameTyped = map[string][]string{
+	"map": {"map", "struct", "map2", "struct2"}, "struct": {"map", "struct", "map2", "struct2"},
+	"map2": {"map", "struct", "map2", "struct2"}, "struct2": {"map", "struct", "map2", "struct2"},
+	"alt": {"alt", "altstruct"}, "altstruct": {"alt", "altstruct"},
+}
+
 func envSmall() interface{} {
 	return map[string]interface{}{"n": 1, "s": "z", "b": false, "l": []int{9}}
 }
@@ -471,6 +503,8 @@ func envHetero2() interface{} {
 }
 
 var envMakers = map[string]func() interface{}{
+	"map2":      envStdMap2,
+	"struct2":   envStdStruct2,
 	"hetero1":   envHetero1,
 	"hetero2":   envHetero2,
 	"alt":       envAltMap,
